@@ -242,12 +242,18 @@ row(props=["C16"], func="pkg/domain/cloc.BuildLanguageMap", params=["languageMap
 row(props=["C16"], func="cmd.processTopFile", params=["dir"], kind="slicebound", field="Files", each={"as": "summary"},
     expr='ite(len(summary.Files) >= global("cmd.clocConfig").TopSizes, global("cmd.clocConfig").TopSizes, len(summary.Files))',
     what="every language lists its first min(top-size, number of files) files")
-M = 'call("regexp.(Regexp).FindStringSubmatch", global("pkg/application/git.complexMoveReg"), f)'
-NEWN = "%s[1] + %s[3] + %s[4]" % (M, M, M)
-OLDN = '%s[1] + %s[2] + ite(%s[2] == "", call("strings.TrimPrefix", %s[4], "/"), %s[4])' % (M, M, M, M, M)
+def rename_terms(f):
+    m = 'call("regexp.(Regexp).FindStringSubmatch", global("pkg/application/git.complexMoveReg"), %s)' % f
+    b = 'call("regexp.(Regexp).FindStringSubmatch", global("pkg/application/git.basicMvReg"), %s)' % f
+    def side(i):
+        return '%s[1] + %s[%d] + ite(%s[%d] == "", call("strings.TrimPrefix", %s[4], "/"), %s[4])' % (m, m, i, m, i, m, m)
+    newn = "ite(len(%s) == 5, %s, ite(len(%s) == 3, %s[2], %s))" % (m, side(3), b, b, f)
+    oldn = "ite(len(%s) == 5, %s, ite(len(%s) == 3, %s[1], %s))" % (m, side(2), b, b, f)
+    return newn, oldn
+NEWN, OLDN = rename_terms("f")
 for i, e in enumerate([NEWN, OLDN, NEWN]):
-    row(props=["C15"], func="pkg/application/git.UpdateMessageForChange", params=["f"], kind="returns", result=i, expr="ite(len(%s) == 5, %s, f)" % (M, e),
-        what="rename notation dir/{old => new}/rest decoded into (current, old, new) names" + " [%d]" % i)
+    row(props=["C15"], func="pkg/application/git.UpdateMessageForChange", params=["f"], kind="returns", result=i, expr=e,
+        what="rename notation decoded into (current, old, new) names: dir/{old => new}/rest without a doubled slash when one side is empty, and old/path => new/path" + " [%d]" % i)
 FL = "pkg/infrastructure/ast/ast_java."
 IDCOL = "GetColumn(GetStart(Identifier(ctx)))"
 NAMEX = 'ite(Identifier(ctx) != nil, GetText(Identifier(ctx)), "")'
@@ -288,9 +294,8 @@ row(props=["C06"], func="pkg/application/refactor/base.(JavaRefactorListener).En
     callee="pkg/application/refactor/base/models.(JFullIdentifier).AddField",
     expr='Expression(ctx, 0) != nil && !contains(%s, ".") && call("unicode.IsUpper", %s[0])' % (EXP0, EXP0),
     what="the left operand of every expression is recorded as a referenced name when it is a capitalised simple name (operators, method references, array access alike)")
-MC = 'call("regexp.(Regexp).FindStringSubmatch", global("pkg/application/git.complexMoveReg"), change.File)'
 row(props=["C15"], func="pkg/application/git.BuildChangeMap", params=["commits"], kind="emits", target="mapstore:inner", tag={}, total=1, each={"as": "commit,change"}, when="*",
-    fields={"key": "ite(len(%s) == 5, %s[1] + %s[3] + %s[4], change.File)" % (MC, MC, MC, MC)}, what="a change is counted under the file's current (new) name")
+    fields={"key": rename_terms("change.File")[0]}, what="a change is counted under the file's current (new) name, for both rename notations")
 row(props=["C18"], func="pkg/application/evaluate.(Analyser).Analysis", params=["a", "classNodes", "identifiers"], kind="callguard", in_loop=True, each={"as": "node"},
     callee="pkg/application/evaluate.(Evaluation).Evaluate", expr='contains(lower(node.NodeName), "util")',
     what="every utility class is counted and evaluated as one, whatever else its name says")
